@@ -1007,7 +1007,7 @@ Proof.
         -- inversion H; subst. exists key, value. cbn. auto.
         -- exists key', value'. cbn. auto.
       * intros [key' [value' [[Hin|Hin] [Hm Hk]]]].
-        -- inversion Hin; subst. left. congruence.
+        -- inversion Hin; subst key' value'. rewrite Em in Hm. inversion Hm; subst. left. reflexivity.
         -- right. eauto.
     + intros key'. cbn [In]. rewrite IH2. split.
       * intros [H|[value' [v [Hin Hm]]]]; [subst; exists value, v0; cbn; auto|exists value', v; cbn; auto].
@@ -1050,7 +1050,7 @@ Lemma read_your_writes_prefix : forall s b h prefix, keys_sorted s -> keys_bytes
               has_prefix prefix k = true /\ s_get (inner_key (h_path h) k) (commit s b) = Some v.
 Proof.
   intros s b h prefix Hs Hkb [Hb Hps] Hp Hpre k v. unfold get_by_prefix.
-  set (path := h_path h) in *. set (ip := inner_key path prefix). set (pl := S (length path)).
+  set (path := h_path h) in *. set (ip := inner_key path prefix). remember (S (length path)) as pl eqn:Epl.
   assert (Hip : bytes_ok ip).
   { unfold ip, inner_key. apply Forall_app. split; auto. constructor; [unfold byte_ok, SEP; lia|auto]. }
   pose proof (gbp_committed_spec (Some b) pl (prefix_entries s ip)) as [G1 G2].
@@ -1063,11 +1063,11 @@ Proof.
         rewrite bytes_prefix_range in Hr by assumption. exists value. split; auto. apply sorted_get_in; auto. }
       destruct Hsome as [x [Hx Hpk]]. apply prefix_entries_in in Hin; auto; [|eapply store_key_bytes; eauto].
       destruct Hin as [Hget _]. apply has_prefix_inner in Hpk. destruct Hpk as [k0 [Ek Hpk]]. subst key.
-      unfold pl in Hk. rewrite skipn_inner_key in Hk. subst k0. split; auto.
+      rewrite Epl, skipn_inner_key in Hk. subst k0. split; auto.
       rewrite <- (merged_value_commit s b _ value Hb Hget). exact Hm.
     + cbn [fst snd] in H. destruct (existsb (beqb key) set) eqn:Ex; [destruct H|]. destruct H as [H|[]]. inversion H; subst k v.
       apply net_puts_in in Hin; [|split; auto]. destruct Hin as [Hpk Hv].
-      apply has_prefix_inner in Hpk. destruct Hpk as [k0 [Ek Hpk]]. subst key. unfold pl. rewrite skipn_inner_key.
+      apply has_prefix_inner in Hpk. destruct Hpk as [k0 [Ek Hpk]]. subst key. rewrite Epl, skipn_inner_key.
       split; auto. rewrite commit_get by exact Hb. rewrite Hv. reflexivity.
   - intros [Hpk Hget]. set (ik := inner_key path k) in *.
     assert (Hpik : has_prefix ip ik = true) by (unfold ip, ik; rewrite has_prefix_inner_iff; exact Hpk).
@@ -1075,8 +1075,8 @@ Proof.
     destruct (s_get ik s) as [value|] eqn:Es.
     + left. exists ik, value. split; [|split].
       * apply prefix_entries_in; auto. eapply store_key_bytes; eauto.
-      * rewrite (merged_value_commit s b ik value Hb Es), commit_get by exact Hb. exact Hget.
-      * unfold pl, ik. rewrite skipn_inner_key. reflexivity.
+      * rewrite (merged_value_commit s b ik value Hb Es), commit_get by exact Hb. rewrite Es. exact Hget.
+      * unfold ik. rewrite Epl, skipn_inner_key. reflexivity.
     + right. destruct (batch_view b ik) as [[d|]|] eqn:Ev; try discriminate. inversion Hget; subst d.
       exists (ik, v). split.
       * apply net_puts_in; [split; auto|]. auto.
@@ -1084,7 +1084,7 @@ Proof.
         -- apply existsb_beqb_in in Ex. apply G2 in Ex. destruct Ex as [value [v' [Hin _]]].
            unfold prefix_entries, range_entries in Hin. apply filter_In in Hin. destruct Hin as [Hin _].
            apply sorted_get_in in Hin; auto. unfold s_get in Es. congruence.
-        -- left. unfold pl, ik. rewrite skipn_inner_key. reflexivity.
+        -- left. unfold ik. rewrite Epl, skipn_inner_key. reflexivity.
 Qed.
 
 (* outside a write transaction: exactly the committed entries with the prefix *)
@@ -1093,7 +1093,7 @@ Lemma read_only_prefix : forall s h prefix, keys_sorted s -> keys_bytes s -> byt
               has_prefix prefix k = true /\ s_get (inner_key (h_path h) k) s = Some v.
 Proof.
   intros s h prefix Hs Hkb Hp Hpre k v. unfold get_by_prefix.
-  set (path := h_path h) in *. set (ip := inner_key path prefix). set (pl := S (length path)).
+  set (path := h_path h) in *. set (ip := inner_key path prefix). remember (S (length path)) as pl eqn:Epl.
   assert (Hip : bytes_ok ip).
   { unfold ip, inner_key. apply Forall_app. split; auto. constructor; [unfold byte_ok, SEP; lia|auto]. }
   pose proof (gbp_committed_spec None pl (prefix_entries s ip)) as [G1 _].
@@ -1105,10 +1105,86 @@ Proof.
       unfold keys_bytes in Hkb. rewrite Forall_forall in Hkb. apply (Hkb _ Hin). }
     apply prefix_entries_in in Hin; auto. destruct Hin as [Hget Hpk].
     apply has_prefix_inner in Hpk. destruct Hpk as [k0 [Ek Hpk]]. subst key.
-    unfold pl in Hk. rewrite skipn_inner_key in Hk. subst k0. auto.
+    rewrite Epl, skipn_inner_key in Hk. subst k0. auto.
   - intros [Hpk Hget]. exists (inner_key path k), v. split; [|split].
     + apply prefix_entries_in; auto; [eapply store_key_bytes; eauto|]. split; auto.
       unfold ip. rewrite has_prefix_inner_iff. exact Hpk.
     + reflexivity.
-    + unfold pl. rewrite skipn_inner_key. reflexivity.
+    + rewrite Epl, skipn_inner_key. reflexivity.
+Qed.
+
+(* ------------------------------------------------------------------ C11_read_your_writes: bucket listings (partial) *)
+Lemma names_committed_spec : forall ob d ents acc l, names_committed ob d ents acc = Ok l ->
+  forall name, In name l <-> In name acc \/ exists key value, In (key, value) ents /\ merged_value ob key value = Some name.
+Proof.
+  intros ob d. induction ents as [|[key value] ents IH]; intros acc l H name; cbn [names_committed] in H.
+  - inversion H; subst. split; [auto|]. intros [H'|[? [? [[] _]]]]. exact H'.
+  - destruct (merged_value ob key value) as [v|] eqn:Em.
+    + destruct (check_name d key v); [|discriminate]. rewrite (IH _ _ H name), in_app_iff. cbn [In]. split.
+      * intros [[Ha|[Hv|[]]]|[key' [value' [Hin Hm]]]]; auto.
+        -- subst v. right. exists key, value. auto.
+        -- right. exists key', value'. auto.
+      * intros [Ha|[key' [value' [[Hin|Hin] Hm]]]]; auto.
+        -- inversion Hin; subst key' value'. rewrite Em in Hm. inversion Hm. auto.
+        -- right. eauto.
+    + rewrite (IH _ _ H name). split.
+      * intros [Ha|[key' [value' [Hin Hm]]]]; auto. right. exists key', value'. cbn. auto.
+      * intros [Ha|[key' [value' [[Hin|Hin] Hm]]]]; auto.
+        -- inversion Hin; subst key' value'. congruence.
+        -- right. eauto.
+Qed.
+Lemma names_batch_spec : forall d np acc l, names_batch d np acc = Ok l ->
+  forall name, In name l <-> In name acc \/ exists key, In (key, name) np.
+Proof.
+  intros d. induction np as [|[key value] np IH]; intros acc l H name; cbn [names_batch] in H.
+  - inversion H; subst. split; [auto|]. intros [H'|[? []]]. exact H'.
+  - destruct (check_name d key value); [|discriminate].
+    destruct (existsb (beqb value) acc) eqn:Ex.
+    + rewrite (IH _ _ H name). apply existsb_beqb_in in Ex. split.
+      * intros [Ha|[key' Hin]]; auto. right. exists key'. cbn. auto.
+      * intros [Ha|[key' [Hin|Hin]]]; auto; [inversion Hin; subst; auto|right; eauto].
+    + rewrite (IH _ _ H name), in_app_iff. cbn [In]. split.
+      * intros [[Ha|[Hv|[]]]|[key' Hin]]; auto; [subst; right; exists key; auto|right; exists key'; auto].
+      * intros [Ha|[key' [Hin|Hin]]]; auto; [inversion Hin; subst; auto|right; eauto].
+Qed.
+
+(* whenever a listing inside a write transaction succeeds, it is exactly the set of values of the bucket index entries
+   under the listing prefix in the store as it would be after commit (created sub-buckets appear, deleted ones vanish) *)
+Lemma read_your_writes_names_scan : forall s b pfx d l, keys_sorted s -> keys_bytes s -> batch_wf b -> bytes_ok pfx ->
+  names_scan s (Some b) pfx d = Ok l ->
+  forall name, In name l <-> exists key, has_prefix pfx key = true /\ s_get key (commit s b) = Some name.
+Proof.
+  intros s b pfx d l Hs Hkb [Hb Hps] Hp H name. unfold names_scan in H.
+  destruct (names_committed (Some b) d (prefix_entries s pfx) []) as [acc|e] eqn:E1; [|discriminate].
+  rewrite (names_batch_spec _ _ _ _ H name), (names_committed_spec _ _ _ _ _ E1 name). cbn [In]. split.
+  - intros [[[]|[key [value [Hin Hm]]]]|[key Hin]].
+    + assert (Hbk : bytes_ok key).
+      { unfold prefix_entries, range_entries in Hin. apply filter_In in Hin. destruct Hin as [Hin _].
+        unfold keys_bytes in Hkb. rewrite Forall_forall in Hkb. apply (Hkb _ Hin). }
+      apply prefix_entries_in in Hin; auto. destruct Hin as [Hget Hpk]. exists key. split; auto.
+      rewrite <- (merged_value_commit s b key value Hb Hget). exact Hm.
+    + apply net_puts_in in Hin; [|split; auto]. destruct Hin as [Hpk Hv]. exists key. split; auto.
+      rewrite commit_get by exact Hb. rewrite Hv. reflexivity.
+  - intros [key [Hpk Hget]]. pose proof Hget as Hget'. rewrite commit_get in Hget by exact Hb.
+    destruct (s_get key s) as [value|] eqn:Es.
+    + left. right. exists key, value. split.
+      * apply prefix_entries_in; auto. eapply store_key_bytes; eauto.
+      * rewrite (merged_value_commit s b key value Hb Es). exact Hget'.
+    + right. destruct (batch_view b key) as [[dd|]|] eqn:Ev; try discriminate. inversion Hget; subst dd.
+      exists key. apply net_puts_in; [split; auto|]. auto.
+Qed.
+Lemma read_only_names_scan : forall s pfx d l, keys_sorted s -> keys_bytes s -> bytes_ok pfx ->
+  names_scan s None pfx d = Ok l ->
+  forall name, In name l <-> exists key, has_prefix pfx key = true /\ s_get key s = Some name.
+Proof.
+  intros s pfx d l Hs Hkb Hp H name. unfold names_scan in H.
+  destruct (names_committed None d (prefix_entries s pfx) []) as [acc|e] eqn:E1; [|discriminate]. inversion H; subst acc.
+  rewrite (names_committed_spec _ _ _ _ _ E1 name). cbn [In merged_value]. split.
+  - intros [[]|[key [value [Hin Hm]]]]. inversion Hm; subst value.
+    assert (Hbk : bytes_ok key).
+    { unfold prefix_entries, range_entries in Hin. apply filter_In in Hin. destruct Hin as [Hin _].
+      unfold keys_bytes in Hkb. rewrite Forall_forall in Hkb. apply (Hkb _ Hin). }
+    apply prefix_entries_in in Hin; auto. destruct Hin. eauto.
+  - intros [key [Hpk Hget]]. right. exists key, name. split; auto.
+    apply prefix_entries_in; auto. eapply store_key_bytes; eauto.
 Qed.
